@@ -14,6 +14,8 @@ pub struct Feature {
     pub src: String,
     pub types: Vec<&'static str>,
     pub watermark_source: Option<&'static str>,
+    /// name of a mutable engine variable the history may set through Engine::set_variable
+    pub variable: Option<&'static str>,
 }
 
 pub fn gen_feature(tape: &mut Tape, only: Option<u64>) -> Feature {
@@ -46,7 +48,7 @@ pub fn gen_feature(tape: &mut Tape, only: Option<u64>) -> Feature {
             } else {
                 src.push_str("  .emit(seq: seq, k: k)\n");
             }
-            Feature { name: format!("window:{}{}", wname, if part { "-partitioned" } else { "" }), src, types: vec!["E"], watermark_source: None }
+            Feature { name: format!("window:{}{}", wname, if part { "-partitioned" } else { "" }), src, types: vec!["E"], watermark_source: None, variable: None }
         }
         3..=5 => {
             // sequences
@@ -81,7 +83,7 @@ pub fn gen_feature(tape: &mut Tape, only: Option<u64>) -> Feature {
             let mut types = vec!["A", "B"];
             if steps == 3 { types.push("C"); }
             if neg { types.push("X"); }
-            Feature { name, src, types, watermark_source: None }
+            Feature { name, src, types, watermark_source: None, variable: None }
         }
         6 => {
             let w = tape.range(1, 4);
@@ -90,14 +92,39 @@ pub fn gen_feature(tape: &mut Tape, only: Option<u64>) -> Feature {
                 src: format!("stream A = EA\nstream B = EB\nstream S = join(A, B)\n  .on(A.k == B.k)\n  .window({}s)\n  .emit(k: A.k, sa: A.seq, sb: B.seq)\n", w),
                 types: vec!["EA", "EB"],
                 watermark_source: None,
+                variable: None,
             }
         }
         7 => {
             if tape.chance(1, 2) {
-                Feature { name: "distinct".into(), src: "stream S = E\n  .distinct(v)\n  .emit(seq: seq, v: v)\n".into(), types: vec!["E"], watermark_source: None }
+                Feature { name: "distinct".into(), src: "stream S = E\n  .distinct(v)\n  .emit(seq: seq, v: v)\n".into(), types: vec!["E"], watermark_source: None, variable: None }
             } else {
-                Feature { name: "limit".into(), src: format!("stream S = E\n  .limit({})\n  .emit(seq: seq)\n", tape.range(1, 6)), types: vec!["E"], watermark_source: None }
+                Feature { name: "limit".into(), src: format!("stream S = E\n  .limit({})\n  .emit(seq: seq)\n", tape.range(1, 6)), types: vec!["E"], watermark_source: None, variable: None }
             }
+        }
+        9 => {
+            // named SASE+ patterns: Kleene closures (with predicates on earlier aliases), AND / OR, partitioning
+            let within = if tape.chance(1, 2) { " within 10s" } else { "" };
+            let part = if tape.chance(1, 3) { " partition by k" } else { "" };
+            let (name, pat, emit, types): (&str, String, &str, Vec<&'static str>) = match tape.draw(7) {
+                0 => ("kleene-plus", "SEQ(A as a, B+ as bs, C as c)".into(), "sa: a.seq, sc: c.seq", vec!["A", "B", "C"]),
+                1 => ("kleene-plus-predicate", "SEQ(A as a, B+ where v > a.v as bs, C as c)".into(), "sa: a.seq, sc: c.seq", vec!["A", "B", "C"]),
+                2 => ("kleene-star", "SEQ(A as a, B* as bs, C as c)".into(), "sa: a.seq, sc: c.seq", vec!["A", "B", "C"]),
+                3 => ("and", "A AND B".into(), "m: 1", vec!["A", "B", "C"]),
+                4 => ("or", "A OR B".into(), "m: 1", vec!["A", "B", "C"]),
+                5 => ("seq-predicate", "SEQ(A as a, B where v >= a.v as b)".into(), "sa: a.seq, sb: b.seq", vec!["A", "B"]),
+                _ => ("kleene-plus-tail", "SEQ(A as a, B+ as bs)".into(), "sa: a.seq", vec!["A", "B"]),
+            };
+            let src = format!("pattern P = {}{}{}\nstream S = P\n  .emit({})\n", pat, within, part, emit);
+            // the signature names the pattern shape; `within` / `partition by` are in the program text (config)
+            Feature { name: format!("pattern:{}", name), src, types, watermark_source: None, variable: None }
+        }
+        10 => {
+            // a mutable variable used by a filter and set through the API while the engine runs
+            let win = tape.chance(1, 3);
+            let mut src = String::from("var t = 2\nstream S = E\n  .where(v > t)\n");
+            if win { src.push_str("  .window(2)\n  .aggregate(n: count(), lo: first(seq))\n  .emit(n: n, lo: lo)\n"); } else { src.push_str("  .emit(seq: seq, v: v)\n"); }
+            Feature { name: format!("variable{}", if win { ":count-window" } else { "" }), src, types: vec!["E"], watermark_source: None, variable: Some("t") }
         }
         _ => {
             let ooo = tape.draw(3) * 500;
@@ -108,7 +135,7 @@ pub fn gen_feature(tape: &mut Tape, only: Option<u64>) -> Feature {
                 src.push_str(&format!("  .window({}s)\n", tape.range(1, 3)));
             }
             src.push_str("  .emit(seq: seq)\n");
-            Feature { name: format!("watermark{}", if win { ":tumbling" } else { "" }), src, types: vec!["E"], watermark_source: Some("E") }
+            Feature { name: format!("watermark{}", if win { ":tumbling" } else { "" }), src, types: vec!["E"], watermark_source: Some("E"), variable: None }
         }
     }
 }
@@ -155,6 +182,7 @@ pub fn scratch() -> std::path::PathBuf {
 
 /// Run one (program, events, cuts) case; returns the step index of the first divergence.
 fn run_case(f: &Feature, events: &[Event], wm_ops: &[(usize, i64)], cuts: &[usize], file_store: bool, rep: &mut Report, sig_extra: &str) -> bool {
+    // variable assignments ride in wm_ops when the feature has a variable (position, new value)
     let mut r = match Eng::new(&f.src) {
         Ok(e) => e,
         Err(e) => {
@@ -189,6 +217,20 @@ fn run_case(f: &Feature, events: &[Event], wm_ops: &[(usize, i64)], cuts: &[usiz
             }
             rep.fault("crash-restore");
             rep.log(format!("--- cut before event #{}: checkpoint, drop engine, fresh engine restores ({} outputs pending at cut)", i, pending.len()));
+        }
+        for (at, val) in wm_ops {
+            if *at == i {
+                if let Some(var) = f.variable {
+                    use varpulis_core::Value;
+                    let a = r.engine.set_variable(var, Value::Int(*val));
+                    let b = t.engine.set_variable(var, Value::Int(*val));
+                    rep.log(format!("--- before #{}: set variable {} := {} -> {:?} / {:?}", i, var, val, a, b));
+                    if a.is_ok() != b.is_ok() {
+                        rep.violate("output-diverges-after-restore", &format!("{}{};set-variable-result-differs", f.name, sig_extra), format!("before #{}: set_variable({}, {}) uninterrupted {:?}, restored {:?}", i, var, val, a, b));
+                        ok = false;
+                    }
+                }
+            }
         }
         for (at, wm) in wm_ops {
             if *at == i {
@@ -302,6 +344,9 @@ pub fn run(batch: &str, tape: &mut Tape, rep: &mut Report) {
         "sequences" => Some(3),
         "joins-distinct-limit" => Some(6 + tape.draw(2)),
         "watermarks" => Some(8),
+        "named-patterns" => Some(9),
+        "variables" => Some(10),
+        "sweep-all-cuts-patterns-variables" => Some(9 + tape.draw(2)),
         _ => None,
     };
     let f = gen_feature(tape, only);
@@ -316,9 +361,14 @@ pub fn run(batch: &str, tape: &mut Tape, rep: &mut Report) {
             wm_ops.push((tape.draw(n) as usize, tape.draw(40) as i64 * 500));
         }
     }
+    if f.variable.is_some() {
+        for _ in 0..tape.range(1, 3) {
+            wm_ops.push((tape.draw(n) as usize, tape.draw(4) as i64));
+        }
+    }
     rep.config = format!("feature={} subms={} disorder={} store={} n={} program={:?}", f.name, subms, disorder, if file_store { "file" } else { "memory" }, n, f.src);
     rep.log(format!("config {}", rep.config));
-    if batch == "sweep-all-cuts" {
+    if batch.starts_with("sweep-all-cuts") {
         // every cut point of this history, one at a time
         for c in 1..n as usize {
             let mut sub = Report::default();
